@@ -29,15 +29,16 @@ Definition subu64 (a b : Z) : option Z := chk_u 64 (a - b).
 (* ================= skrifa/src/outline/glyf/hint/math.rs ================= *)
 (* pub fn floor(x: i32) -> i32 { x & !63 } *)
 Definition m_floor (x : Z) : option Z := Some (Z.land x (-64)).
-(* pub fn round(x: i32) -> i32 { floor(x + 32) } *)
-Definition m_round (x : Z) : option Z := do s <- add32 x 32 ;; m_floor s.
-(* pub fn ceil(x: i32) -> i32 { floor(x + 63) } *)
-Definition m_ceil (x : Z) : option Z := do s <- add32 x 63 ;; m_floor s.
-(* fn floor_pad(x: i32, n: i32) -> i32 { x & !(n - 1) } *)
-Definition m_floor_pad (x n : Z) : option Z := do m <- sub32 n 1 ;; Some (Z.land x (Z.lnot m)).
-(* pub fn round_pad(x: i32, n: i32) -> i32 { floor_pad(x + n / 2, n) } *)
+Definition wneg (x : Z) : Z := wrap_s 32 (- x).                    (* x.wrapping_neg() *)
+(* pub fn round(x: i32) -> i32 { floor(x.wrapping_add(32)) } *)
+Definition m_round (x : Z) : option Z := m_floor (wrap_s 32 (x + 32)).
+(* pub fn ceil(x: i32) -> i32 { floor(x.wrapping_add(63)) } *)
+Definition m_ceil (x : Z) : option Z := m_floor (wrap_s 32 (x + 63)).
+(* fn floor_pad(x: i32, n: i32) -> i32 { x & !(n.wrapping_sub(1)) } *)
+Definition m_floor_pad (x n : Z) : option Z := Some (Z.land x (Z.lnot (wrap_s 32 (n - 1)))).
+(* pub fn round_pad(x: i32, n: i32) -> i32 { floor_pad(x.wrapping_add(n / 2), n) } *)
 Definition m_round_pad (x n : Z) : option Z :=
-  do h <- div32 n 2 ;; do s <- add32 x h ;; m_floor_pad s n.
+  do h <- div32 n 2 ;; m_floor_pad (wrap_s 32 (x + h)) n.
 
 (* impl Mul for Fixed (fixed_mul_div!): ab = a as i64 * b as i64; ((ab + 0x8000 - i64::from(ab<0)) >> 16) as i32 *)
 Definition fixed_mul_chk (a b : Z) : option Z :=
@@ -83,14 +84,14 @@ Definition m_mul_div := fixed_mul_div_chk.
 (* pub fn mul_div_no_round(mut a: i32, mut b: i32, mut c: i32) -> i32 *)
 Definition m_mul_div_no_round (a0 b0 c0 : Z) : option Z :=
   let s := 1 in
-  do a <- (if a0 <? 0 then neg32 a0 else Some a0) ;;            (* a = -a *)
+  let a := if a0 <? 0 then wneg a0 else a0 in                   (* a = a.wrapping_neg() *)
   let s := if a0 <? 0 then -1 else s in
-  do b <- (if b0 <? 0 then neg32 b0 else Some b0) ;;
-  do s <- (if b0 <? 0 then neg32 s else Some s) ;;
-  do c <- (if c0 <? 0 then neg32 c0 else Some c0) ;;
+  let b := if b0 <? 0 then wneg b0 else b0 in
+  do s <- (if b0 <? 0 then neg32 s else Some s) ;;              (* s = -s, s = +-1 *)
+  let c := if c0 <? 0 then wneg c0 else c0 in
   do s <- (if c0 <? 0 then neg32 s else Some s) ;;
   do d <- (if 0 <? c then do p <- mul64 a b ;; div_s 64 p c else Some 2147483647) ;;
-  if s <? 0 then neg32 (wrap_s 32 d) else Some (wrap_s 32 d).  (* -(d as i32) / d as i32 *)
+  Some (if s <? 0 then wneg (wrap_s 32 d) else wrap_s 32 d).    (* (d as i32).wrapping_neg() / d as i32 *)
 
 (* pub fn mul14(a: i32, b: i32) -> i32 *)
 Definition m_mul14 (a b : Z) : option Z :=
@@ -115,38 +116,40 @@ Definition m_normalize14_negshift (x y : Z) : option Z :=
 (* ================= hint/round.rs  RoundState::round, one definition per mode ================= *)
 Definition rs_off (d : Z) : option Z := Some d.
 Definition rs_half_grid (d : Z) : option Z :=
-  if 0 <=? d then do f <- m_floor d ;; do r <- add32 f 32 ;; Some (Z.max r 0)
-  else do nd <- neg32 d ;; do f <- m_floor nd ;; do r <- add32 f 32 ;; do n <- neg32 r ;; Some (Z.min n 0).
+  if 0 <=? d then do f <- m_floor d ;; Some (Z.max (wrap_s 32 (f + 32)) 0)
+  else do f <- m_floor (wneg d) ;; Some (Z.min (wneg (wrap_s 32 (f + 32))) 0).
 Definition rs_grid (d : Z) : option Z :=
   if 0 <=? d then do r <- m_round d ;; Some (Z.max r 0)
-  else do nd <- neg32 d ;; do r <- m_round nd ;; do n <- neg32 r ;; Some (Z.min n 0).
+  else do r <- m_round (wneg d) ;; Some (Z.min (wneg r) 0).
 Definition rs_double_grid (d : Z) : option Z :=
   if 0 <=? d then do r <- m_round_pad d 32 ;; Some (Z.max r 0)
-  else do nd <- neg32 d ;; do r <- m_round_pad nd 32 ;; do n <- neg32 r ;; Some (Z.min n 0).
+  else do r <- m_round_pad (wneg d) 32 ;; Some (Z.min (wneg r) 0).
 Definition rs_down_to_grid (d : Z) : option Z :=
   if 0 <=? d then do r <- m_floor d ;; Some (Z.max r 0)
-  else do nd <- neg32 d ;; do r <- m_floor nd ;; do n <- neg32 r ;; Some (Z.min n 0).
+  else do r <- m_floor (wneg d) ;; Some (Z.min (wneg r) 0).
 Definition rs_up_to_grid (d : Z) : option Z :=
   if 0 <=? d then do r <- m_ceil d ;; Some (Z.max r 0)
-  else do nd <- neg32 d ;; do r <- m_ceil nd ;; do n <- neg32 r ;; Some (Z.min n 0).
+  else do r <- m_ceil (wneg d) ;; Some (Z.min (wneg r) 0).
+(* every operation explicitly wrapping *)
 Definition rs_super (threshold phase period d : Z) : option Z :=
+  let tp := wrap_s 32 (threshold - phase) in
   if 0 <=? d then
-    do tp <- sub32 threshold phase ;; do s <- add32 d tp ;; do np <- neg32 period ;;
-    do v <- add32 (Z.land s np) phase ;;
-    if v <? 0 then Some phase else Some v
+    let v := wrap_s 32 (Z.land (wrap_s 32 (d + tp)) (wneg period) + phase) in
+    Some (if v <? 0 then phase else v)
   else
-    do tp <- sub32 threshold phase ;; do s <- sub32 tp d ;; do np <- neg32 period ;;
-    do n <- neg32 (Z.land s np) ;; do v <- sub32 n phase ;;
-    if 0 <? v then neg32 phase else Some v.
+    let v := wrap_s 32 (wneg (Z.land (wrap_s 32 (tp - d)) (wneg period)) - phase) in
+    Some (if 0 <? v then wneg phase else v).
+(* wrapping except the division by the period (never 0 / -1 for an installable period) *)
 Definition rs_super45 (threshold phase period d : Z) : option Z :=
+  let tp := wrap_s 32 (threshold - phase) in
   if 0 <=? d then
-    do tp <- sub32 threshold phase ;; do s <- add32 d tp ;; do q <- div32 s period ;;
-    do m <- mul32 q period ;; do v <- add32 m phase ;;
-    if v <? 0 then Some phase else Some v
+    do q <- div32 (wrap_s 32 (d + tp)) period ;;
+    let v := wrap_s 32 (wrap_s 32 (q * period) + phase) in
+    Some (if v <? 0 then phase else v)
   else
-    do tp <- sub32 threshold phase ;; do s <- sub32 tp d ;; do q <- div32 s period ;;
-    do m <- mul32 q period ;; do n <- neg32 m ;; do v <- sub32 n phase ;;
-    if 0 <? v then neg32 phase else Some v.
+    do q <- div32 (wrap_s 32 (tp - d)) period ;;
+    let v := wrap_s 32 (wneg (wrap_s 32 (q * period)) - phase) in
+    Some (if 0 <? v then wneg phase else v).
 
 (* RoundMode discriminants in declaration order *)
 Definition rs_round (mode threshold phase period d : Z) : option Z :=
@@ -171,8 +174,8 @@ Definition super_round (grid sel : Z) : option (Z * Z * Z) :=
   Some (Z.shiftr threshold 8, Z.shiftr phase 8, Z.shiftr period 8).
 
 (* ================= font-types/src/fixed.rs ================= *)
-(* Neg for Fixed/F26Dot6: Self(-self.0); abs: Self(self.0.abs()); fract: self.0 - self.floor().0
-   — C15.Model.fx_neg / fx_abs / fx_fract are already the checked readings. *)
+(* Neg for Fixed/F26Dot6: Self(self.0.wrapping_neg()); abs: Self(self.0.wrapping_abs());
+   fract: self.0 - self.floor().0 — C15.Model.fx_neg / fx_abs / fx_fract. *)
 (* from_i32: i << 16 (a shift by a constant < 32 never trips the check) *)
 Definition fixed_from_i32_chk (i : Z) : option Z := Some (fixed_from_i32 i).
 Definition f26dot6_from_i32_chk (i : Z) : option Z := Some (wrap_s 32 (Z.shiftl i 6)).
